@@ -244,7 +244,40 @@ func cmdCheck(args []string) {
 		}
 		if or.Obl.Bound != "" && (or.Status == "PROVED" || or.Status == "COVERED") {
 			// a bounded stand-in: reported, never counted as proved
-			boundedOK = append(boundedOK, map[string]any{"obligation": name, "bound": or.Obl.Bound, "statement": or.Obl.Descr, "solver": or.Res.Solver, "secs": or.Res.Secs})
+			entry := map[string]any{"obligation": name, "bound": or.Obl.Bound, "statement": or.Obl.Descr, "solver": or.Res.Solver, "secs": or.Res.Secs}
+			if thorough && or.Obl.FullReach.Valid() {
+				// thorough tier: also try the clause without the bound, with the long time limit. A
+				// proof upgrades nothing in the accounting (the clause stays a stand-in in the quick
+				// tier) but is recorded; a counterexample outside the bound counts only if it
+				// replays on the real code.
+				full := *or.Obl
+				full.Reach = or.Obl.FullReach
+				full.Bound = ""
+				fr := Solve(or.Func.VC, &full, secs, false, "ub")
+				switch fr.Status {
+				case "unsat":
+					entry["without_bound"] = fmt.Sprintf("proved in the thorough tier (%s, %.1fs)", fr.Solver, fr.Secs)
+				case "sat":
+					ro := Replay(ctx, or.Func, &full, secs)
+					if ro.Confirmed {
+						violations++
+						dir := filepath.Join(*verif, "replays", *prop)
+						os.MkdirAll(dir, 0o755)
+						rp := filepath.Join(dir, sanitize(strings.TrimPrefix(name, "github.com/NethermindEth/juno/"))+".unbounded.json")
+						b, _ := json.MarshalIndent(replayFile{Property: *prop, Obligation: name + " (without its bound)", Kind: or.Obl.Kind, Description: or.Obl.Descr,
+							Position: or.Obl.Pos.String(), Solver: fr.Solver, Model: fr.Model, Replay: ro.Status, ReplayInfo: ro.Detail, TestSrc: ro.TestSrc, TestOutput: firstLines(ro.Output, 60)}, "", " ")
+						os.WriteFile(rp, b, 0o644)
+						fmt.Printf("  refuted outside its bound: %s\n  replay: %s\n", name, ro.Detail)
+						fmt.Printf("VIOLATION property=%s replay=%s\n", *prop, rp)
+						entry["without_bound"] = "counterexample outside the bound, replayed on the real code"
+					} else {
+						entry["without_bound"] = "solver reports a counterexample outside the bound; it does not replay on the real code (" + ro.Status + "): undecided"
+					}
+				default:
+					entry["without_bound"] = fmt.Sprintf("undecided in the thorough tier (%s after %.0fs)", fr.Status, fr.Secs)
+				}
+			}
+			boundedOK = append(boundedOK, entry)
 			continue
 		}
 		switch or.Status {
